@@ -18,6 +18,10 @@ POOLS = [
     ["Straße", "STRASSE", "straße", "strasse", "Weg", "weg"],
     ["ΟΔΟΣ", "οδος", "οδοσ", "Οδος", "α", "Α"],
     ["İzmir", "izmir", "Izmir", "ızmir", "Straße", "ΟΔΟΣ", "οδος", "b"],
+    # the EMPTY label is a label like any other (falsy in Python: `if not label` is not `label is None`)
+    ["", "a", "A", "b", "B"],
+    ["", "t1", "T1", "t2", "0", "x"],
+    ["", "Homo", "homo", "Pan"],
 ]
 
 
@@ -76,10 +80,13 @@ class _Sim(object):
         elif n == "AddTaxon":
             if op[1] < self.nobj:
                 self._add(op[1])
-        elif n == "AddTaxa":
+        elif n in ("AddTaxa", "AddTaxaAbort"):
             if all(t < self.nobj for t in op[1]):
                 for t in op[1]:
                     self._add(t)
+        elif n == "NewTaxaAbort":
+            for l in op[1]:
+                self._new(l)
         elif n == "RemoveTaxon":
             self._remove(op[1])
         elif n in ("RemoveLabel", "DiscardLabel"):
@@ -110,7 +117,7 @@ class _Sim(object):
             self.members = [new[t] for t in self.members]
 
 
-def gen_case(rng, maxlen):
+def gen_case(rng, maxlen, abort=0.0):
     pool = sorted(set(rng.choice(POOLS)))
     nfree = rng.randint(0, 4)
     free = [rng.randrange(len(pool)) for _ in range(nfree)]
@@ -201,9 +208,34 @@ def gen_case(rng, maxlen):
         if nfree >= 2 and rng.random() < 0.3:
             # pooled Taxon objects, some of them more than once (e.g. the leaf taxa of several trees)
             pending.append(["AddTaxa", [rng.randrange(nfree) for _ in range(rng.randint(2, 5))], rng.randrange(3)])
+    def abort_op():
+        # a batch addition that FAILS part-way (after k >= 0 elements were handed over), followed by further additions
+        if rng.random() < 0.7:
+            non = [t for t in range(sim.nobj) if t not in sim.idx]
+            good = batch()
+            if non and rng.random() < 0.6:
+                good.insert(rng.randint(0, len(good)), rng.choice(non))
+            tail = [rng.randrange(sim.nobj) for _ in range(rng.randint(0, 2))] if sim.nobj else []
+            op = ["AddTaxaAbort", good, rng.randrange(4), tail]
+        else:
+            op = ["NewTaxaAbort", repeats([L() for _ in range(rng.randint(0, 3))]), rng.choice([0, 2, 3])]
+        for _ in range(rng.randint(0, 2)):
+            r = rng.random()
+            if r < 0.4:
+                pending.append(["NewTaxon", L()])
+            elif r < 0.6:
+                pending.append(["RequireTaxon", rng.randrange(len(pool)), CS()])
+            elif r < 0.8:
+                pending.append(["AddTaxa", batch(), rng.randrange(3)])
+            else:
+                pending.append(["AddTaxon", T(), rng.randrange(3)])
+        return op
+
     while len(ops) < n:
         if pending:
             op = pending.pop(0)
+        elif abort and rng.random() < abort:
+            op = abort_op()
         else:
             k = rng.random()
             if k < 0.10:
@@ -329,6 +361,17 @@ def observe(case):
                     r = ns.add_taxa(batch)
                 assert r is None
                 out = ["OUnit"]
+            elif name == "AddTaxaAbort":
+                # a batch that FAILS part-way: the iterable hands over the Taxon objects op[1] and then raises
+                # (a generator hitting a bad row) or continues with an element that cannot be a member
+                # (unhashable) followed by further taxa op[3] that are never reached
+                if any(i >= len(objs) for i in op[1] + op[3]):
+                    raise core_skip()
+                r = ns.add_taxa(failing_iterable([objs[i] for i in op[1]], op[2], [objs[i] for i in op[3]]))
+                out = ["ONoError", repr(r)]          # the batch must not succeed (reported by the oracle)
+            elif name == "NewTaxaAbort":
+                r = ns.new_taxa(failing_iterable([pool[i] for i in op[1]], op[2], []))
+                out = ["ONoError", repr(r)]
             elif name == "NewTaxon":
                 t = ns.new_taxon(pool[op[1]]); out = ["OTax", reg(t)]
             elif name == "NewTaxa":
@@ -398,7 +441,7 @@ def observe(case):
                     s = ns.split_as_newick_string(op[1])
                 else:
                     s = ns.bitmask_as_newick_string(op[1])
-                out = parse_groups(s, pool)
+                out = parse_groups(s, pool, ns, op[1])
             elif name == "SetMutable":
                 ns.is_mutable = op[1]; out = ["OUnit"]
             elif name == "SetCS":
@@ -476,6 +519,40 @@ class core_skip(Exception):
     pass
 
 
+ABORT_KINDS = {0: "ValueErr", 1: "TypeErr", 2: "KeyErr", 3: "ValueErr"}
+
+
+def failing_iterable(good, kind, tail):
+    """an iterable that yields `good` and then fails: kind 0 / 2 = a generator raising ValueError / KeyError
+    (a caller-side reader meeting a bad row / an unknown name), kind 1 = a LIST whose next element is
+    unhashable (TypeError raised by the namespace's own membership test) followed by `tail`,
+    kind 3 = an iterator object whose __next__ raises ValueError"""
+    if kind == 1:
+        return list(good) + [[]] + list(tail)
+    if kind == 3:
+        class It(object):
+            def __init__(self):
+                self.i = 0
+
+            def __iter__(self):
+                return self
+
+            def __next__(self):
+                if self.i >= len(good):
+                    raise ValueError("bad row %d" % self.i)
+                self.i += 1
+                return good[self.i - 1]
+        return It()
+
+    def g():
+        for x in good:
+            yield x
+        if kind == 2:
+            raise KeyError("unknown name")
+        raise ValueError("blank row")
+    return g()
+
+
 def acc_index(ns, t):
     """accession index of a listed taxon; -1 when the namespace has none for it (the oracle reports that)"""
     try:
@@ -484,14 +561,33 @@ def acc_index(ns, t):
         return -1
 
 
-def parse_groups(s, pool):
+def parse_groups(s, pool, ns=None, mask=0):
+    """the label groups named by a newick rendering of a bitmask. An EMPTY label is rendered as nothing, so
+    "()" is either no label or one empty label: decided by the number of members (and, for the single case
+    that stays ambiguous - one member, labelled "", both groups "()" - by the member's bit)"""
     assert s.endswith(";")
     s = s[:-1]
+    n = None if ns is None else len(ns)
     if s.startswith("(("):
         l, r = s[2:-2].split("), (")
-        f = lambda x: [pool.index(y) for y in x.split(", ") if y != ""]
-        return ["OGroups", f(l), f(r)]
-    return ["OGroup1", [pool.index(y) for y in s[1:-1].split(",") if y != ""]]
+        f = lambda x: [pool.index(y) for y in x.split(", ")] if x != "" else []
+        gl, gr = f(l), f(r)
+        if n is not None and len(gl) + len(gr) != n and "" in pool:
+            e = [pool.index("")]
+            if l == "" and r == "":
+                if n == 2:
+                    gl, gr = e, e
+                elif n == 1:
+                    gl, gr = (e, []) if (mask & ns.taxon_bitmask(ns[0])) else ([], e)
+            elif l == "":
+                gl = e
+            elif r == "":
+                gr = e
+        return ["OGroups", gl, gr]
+    body = s[1:-1]
+    if body == "" and (n == 0 or (n is None and "" not in pool)):
+        return ["OGroup1", []]
+    return ["OGroup1", [pool.index(y) for y in body.split(",")]]
 
 
 def normalise(case, obs):
@@ -593,6 +689,36 @@ def oracle(case, obs):
                     want.extend(t for t in m if t not in want)
             if out != ["OTaxa", want]:
                 return ("get_taxa returned %s, expected %s (step %d %s)" % (out, want, step, op), "get-taxa")
+        if name in ("AddTaxaAbort", "NewTaxaAbort"):
+            # a batch that fails part-way: the error is the iterable's (or the namespace's own refusal, which comes
+            # first and changes nothing); what was handed over before the failure is added exactly as by the
+            # single-element calls; the counter covers it (all_taxa_bitmask), so later additions get fresh bits
+            base_count = prev_all.bit_length()
+            if out[0] != "OErr":
+                return ("%s with a failing iterable did not raise: %s (step %d %s)" % (name, out, step, op), "abort-batch-no-error:" + name)
+            if name == "AddTaxaAbort":
+                new = []
+                for t in op[1]:
+                    if t not in prev_members and t not in new:
+                        new.append(t)
+                refused = bool(new) and not mutable
+            else:
+                new = members[len(prev_members):]
+                refused = not mutable
+                if not refused and (len(new) != len(op[1]) or set(new) & seen or [labels[t] for t in new] != [pool[l] for l in op[1]]):
+                    return ("new_taxa failing after %d labels left new members %s (step %d %s)" % (len(op[1]), new, step, op), "abort-batch-members:" + name)
+            if refused:
+                if out != ["OErr", "TypeErr"] or members != prev_members or idx != prev or (allm is not None and allm != prev_all):
+                    return ("%s on an immutable namespace: %s, members %s -> %s (step %d)" % (name, out, prev_members, members, step), "abort-batch-immutable:" + name)
+            else:
+                if out != ["OErr", ABORT_KINDS[op[2]]]:
+                    return ("%s: the error of the iterable was turned into %s (step %d %s)" % (name, out, step, op), "abort-batch-error-kind:" + name)
+                if members != prev_members + new:
+                    return ("%s failing after %s: members %s -> %s (step %d)" % (name, op[1], prev_members, members, step), "abort-batch-members:" + name)
+                if [idx[t] for t in new] != list(range(base_count, base_count + len(new))) or \
+                        (allm is not None and allm != (1 << (base_count + len(new))) - 1):
+                    return ("%s failing after %s: the %d members added before the failure have indices %s, all_taxa_bitmask %d -> %s: the counter does not cover them (step %d)"
+                            % (name, op[1], len(new), [idx[t] for t in new], prev_all, allm, step), "abort-batch-counter:" + name)
         if name == "AddTaxa":
             # the batch = its distinct not-yet-member objects, once each, in the order of first occurrence
             new = []
@@ -767,6 +893,61 @@ def exhaustive_cases():
               ["Clear"]]
     for seq in itertools.product(alpha4, repeat=4):
         yield {"pool": pool, "free": [2], "cs": True, "ops": [list(o) for o in seq]}
+
+
+# ---- eighth wave: batch additions that fail part-way (Model/C10AbortModel.v) ----
+
+AHEADER = "From DV Require Import Model.PyPrims Model.C10Model Model.C10AbortModel.\nFrom Coq Require Import ZArith. Open Scope Z_scope."
+
+
+def gen_acase(rng, maxlen):
+    """a base history in which about one operation in eight is add_taxa / new_taxa over an iterable that fails
+    part-way; the history continues afterwards (mostly with further additions)"""
+    if rng.random() < 0.25:
+        # the short shape: populate, fail, add
+        c = gen_case(rng, 3, abort=0.0)
+        c2 = gen_case(rng, rng.randint(2, 6), abort=0.9)
+        if c["pool"] == c2["pool"] and c["free"] == c2["free"] and c["cs"] == c2["cs"]:
+            return {"pool": c["pool"], "free": c["free"], "cs": c["cs"], "ops": c["ops"] + c2["ops"]}
+        return c2
+    return gen_case(rng, maxlen, abort=0.13)
+
+
+def c_aop(op):
+    n = op[0]
+    zl = lambda l: clist([cz(x) for x in l])
+    if n in ("AddTaxaAbort", "NewTaxaAbort"):
+        return "(%s %s %s)" % (n, zl(op[1]), ABORT_KINDS[op[2]])
+    return "(ABase %s)" % c_op(op)
+
+
+def to_coq_a(case, obs):
+    pool = case["pool"]
+    ops, ob = normalise(case, obs)
+    low = {}
+    pairs = []
+    for i, s in enumerate(pool):
+        l = s.lower()
+        if l in pool:
+            pairs.append((i, pool.index(l)))
+        else:
+            low.setdefault(l, 1000 + i)
+            pairs.append((i, low[l]))
+    lower = clist([cpair(cz(a), cz(b)) for a, b in pairs])
+    free = clist([cpair(cz(i), cz(l)) for i, l in enumerate(case["free"])])
+    co = lambda o: "OUnit" if o[0] == "ONoError" else c_out(o)
+    exp = clist([cpair(co(o), clist([cpair(cz(t), cz(i)) for t, i in st])) for o, st, *_ in ob])
+    return "(mkACase %s %s %s %s %s)" % (lower, free, cbool(case["cs"]), clist([c_aop(o) for o in ops]), exp)
+
+
+def nontrivial_a(case, obs):
+    ops, ob = normalise(case, obs)
+    # a batch that failed AFTER it had added something, and a later operation that added a member
+    for k, (op, rec) in enumerate(zip(ops, ob)):
+        if op[0] in ("AddTaxaAbort", "NewTaxaAbort") and k > 0 and len(rec[1]) > len(ob[k - 1][1]):
+            if any(len(ob[j][1]) > len(ob[j - 1][1]) for j in range(k + 1, len(ob))):
+                return True
+    return False
 
 
 # ---- second wave: rendering / read-only operations (Model/C10ModelExt.v) ----
@@ -989,13 +1170,94 @@ def oracle_x(case, obs):
     return None
 
 
+# ---- labels that are falsy but not None: "" and 0 (implementation against the naive statement only; the
+# model's labels are ids into a pool of strings, to which "" belongs - see POOLS - but 0 does not) ----
+
+FALSY_POOL = [0, "", "a", "A", "b"]
+
+
+def gen_fcase(rng):
+    k = rng.randint(1, 6)
+    return {"falsy": True, "cs": rng.random() < 0.5,
+            "members": [rng.choice([0, 1, 0, 1, 2, 3, 4]) for _ in range(k)],
+            "relabel": [[rng.randrange(k), rng.randrange(5)] for _ in range(rng.randint(0, 2))],
+            "queries": [[rng.choice(["findall", "get_taxon", "has_taxon_label", "get_taxa", "taxa_bitmask", "require_taxon",
+                                     "has_taxa_labels", "discard_taxon_label"]),
+                         rng.choice([0, 1, 0, 1, 2, 3, 4]), rng.choice([None, True, False])] for _ in range(rng.randint(1, 5))]}
+
+
+def falsy_check(case):
+    """None | (what, key): every lookup names exactly the members whose label equals the query (case-sensitive) or
+    whose str(label).lower() equals the query's - `0` and "" are labels, only None means 'no label'"""
+    import dendropy
+    P = FALSY_POOL
+    ns = dendropy.TaxonNamespace(is_case_sensitive=case["cs"])
+    for li in case["members"]:
+        ns.new_taxon(P[li]) if li % 2 else ns.add_taxon(dendropy.Taxon(label=P[li]))
+    for k, li in case["relabel"]:
+        ns[k].label = P[li]
+    for meth, qi, cs in case["queries"]:
+        q = P[qi]
+        c = case["cs"] if cs is None else cs
+        members = list(ns)
+        same = lambda a, b: type(a) is type(b) and a == b
+        want = [t for t in members if (same(t.label, q) if c else str(t.label).lower() == str(q).lower())]
+        ident = lambda l: [id(t) for t in l]
+        tag = "%s(%r, is_case_sensitive=%r) on labels %r (namespace is_case_sensitive=%r)" % (meth, q, cs, [t.label for t in members], case["cs"])
+        if meth == "findall":
+            got = ns.findall(q, is_case_sensitive=cs)
+            bad = ident(got) != ident(want)
+        elif meth == "get_taxon":
+            got = ns.get_taxon(q, is_case_sensitive=cs)
+            bad = got is not (want[0] if want else None)
+        elif meth == "has_taxon_label":
+            got = ns.has_taxon_label(q, is_case_sensitive=cs)
+            bad = bool(got) != bool(want)
+        elif meth == "has_taxa_labels":
+            got = ns.has_taxa_labels([q, q], is_case_sensitive=cs)
+            bad = bool(got) != bool(want)
+        elif meth == "get_taxa":
+            got = ns.get_taxa([q], is_case_sensitive=cs)
+            bad = ident(got) != ident(want)
+        elif meth == "taxa_bitmask":
+            got = ns.taxa_bitmask(labels=[q], is_case_sensitive=cs)
+            bad = got != sum(ns.taxon_bitmask(t) for t in want)
+        elif meth == "require_taxon":
+            got = ns.require_taxon(q, is_case_sensitive=cs)
+            if want:
+                bad = got is not want[0] or ident(ns) != ident(members)
+            else:
+                bad = ident(ns) != ident(members) + [id(got)] or not same(got.label, q)
+        else:
+            ns.discard_taxon_label(q, is_case_sensitive=cs)
+            got = [t.label for t in ns]
+            bad = ident(ns) != [id(t) for t in members if not any(t is w for w in want)]
+        if bad:
+            return ("%s returned %r; the matching members are %r" % (tag, got if not isinstance(got, list) else [getattr(t, "label", t) for t in got],
+                                                                       [t.label for t in want]), "falsy-label:" + meth)
+    return None
+
+
+def falsy_stage(ctx, n, rng):
+    for _ in range(n):
+        case = gen_fcase(rng)
+        ctx.evaluations += 1
+        ctx.count("falsy-label lookups (direct)")
+        v = falsy_check(case)
+        if v:
+            ctx.violation(v[0], {"case": case, "observed": v[0]}, key=v[1])
+            if ctx.violations:
+                return
+
+
 def search(ctx, budget_s):
     import time
     t0 = time.time()
     rng = random.Random(ctx.seed + 77)
     n = 0
     while time.time() - t0 < budget_s / 2.0 and n < 20000:
-        case = gen_case(rng, 30)
+        # every other history contains batch additions over iterables that fail part-way
+        case = gen_acase(rng, 30) if n % 2 else gen_case(rng, 30)
         obs = observe(case)
         v = oracle(case, obs)
         n += 1
@@ -1004,6 +1266,9 @@ def search(ctx, budget_s):
             if ctx.violations:
                 return
     ctx.notes.append("search: %d further histories through the oracle, no unlisted violation" % n)
+    falsy_stage(ctx, 2000, rng)
+    if ctx.violations:
+        return
     from dv import c10_copy
     c10_copy.search_m(ctx, budget_s / 2.0)
 
@@ -1019,10 +1284,13 @@ def run(tier, seed, replay=None):
         import json
         r = json.load(open(replay))["replay"]
         case = r["case"]
+        if case.get("falsy"):
+            print("oracle:", falsy_check(case))
+            return 0
         obs = observe(case)
         print("oracle:", oracle(case, obs))
         return 0
-    ok = proof_ok = core.proof_stage(ctx, ["Model/C10ModelExt.vo", "Model/C10CopyModel.vo", "Props/C10.vo"],
+    ok = proof_ok = core.proof_stage(ctx, ["Model/C10ModelExt.vo", "Model/C10CopyModel.vo", "Model/C10AbortModel.vo", "Props/C10.vo"],
                                           gen_needed=("BitFns", "Namespace", "NamespaceCopy"))
     if not ok:
         core.broken_proof(ctx, search)
@@ -1081,6 +1349,29 @@ def run(tier, seed, replay=None):
     core.corr_stage(ctx, xcases, observe_x, to_coq_x, XHEADER, "xcase_ok", oracle=oracle_x,
                     show_fn="xcase_run", nontrivial=nontrivial, search=None, shard=250, label="xops correspondence",
                     sample_fn=lambda c, o: {"ops": c["ops"][:10], "pool": c["pool"]})
+    # eighth wave: batch additions over iterables that FAIL part-way (Model/C10AbortModel.v); the history goes on
+    na = 200 if tier == "quick" else 3000
+    acases = [gen_acase(ctx.rng, 20 if tier == "quick" else 50) for _ in range(na)]
+
+    def observe_a(case):
+        obs = observe(case)
+        ops_, ob_ = case["ops"], obs
+        prev_len = 0
+        for op, rec in zip(ops_, ob_):
+            if op[0] in ("AddTaxaAbort", "NewTaxaAbort"):
+                out = rec[0]
+                ctx.count("outcome:%s:%s" % (op[0], out[1] if out[0] == "OErr" else ("skipped" if out[0] == "SKIP" else "no error")))
+                ctx.count("failing batch that had added %s" % ("nothing" if len(rec[1]) == prev_len else ">=1 member"))
+            prev_len = len(rec[1])
+        if nontrivial_a(case, obs):
+            ctx.count("history: batch fails after adding members, later operation adds a member")
+        return obs
+
+    core.corr_stage(ctx, acases, observe_a, to_coq_a, AHEADER, "acase_ok", oracle=oracle,
+                    show_fn="acase_run", nontrivial=nontrivial_a, search=None, shard=250, label="failing-batch correspondence",
+                    sample_fn=lambda c, o: {"ops": c["ops"][:10], "pool": c["pool"]})
+    # labels that are falsy but not None ("" and 0), implementation against the naive statement
+    falsy_stage(ctx, 400 if tier == "quick" else 6000, ctx.rng)
     # third wave: histories over SEVERAL namespaces (constructors, copy.copy, copy.deepcopy, ==, <): Model/C10CopyModel.v
     from dv import c10_copy
     c10_copy.stage(ctx, tier)
@@ -1114,4 +1405,4 @@ def run(tier, seed, replay=None):
                     XHEADER, "bcase_ok", oracle=oracle_b, show_fn="bcase_run", nontrivial=lambda c, o: c["n"] > 1,
                     search=None, shard=400, label="bitstring correspondence")
     return ctx.finish(level="proof",
-                      rule="random op histories (<=25 quick / <=60 thorough ops) drawn by a state-aware generator (operands mostly members / present labels incl. case variants / subsets of live bits; taxa_bitmask followed by bitmask_taxa_list of its result) over label pools with duplicates and case variants, both case settings, several API spellings per op (append/add_taxa, del ns[i]/remove, copy.copy, split_as_newick_string, get_taxa_bitmask); the batch entry points add_taxa(list / tuple / generator of Taxon objects in which the SAME not-yet-member object, and members, occur repeatedly), new_taxa / has_taxa_labels / get_taxa with the same label repeated inside one batch, TaxonNamespace([...]) with repeated objects and labels; after every operation the oracle checks that the members are pairwise distinct objects, each with one accession index inside all_taxa_bitmask, and that all_taxa_bitmask has no bit that never had an owner; thorough adds every history of length <=3 over a 25-op alphabet and every history of length 4 over an 11-op alphabet; a case is non-trivial when it has >=3 executed ops and reaches a namespace with >=2 members; distinct by full case content; second wave: 300 quick / 4000 thorough such histories with bitmask_as_bitstring, split_as_string, label_taxon_map, taxa_bipartition(taxa=/labels=), taxa_bitmask(labels=), get_taxa_bitmask, ns[i], ns[a:b], ns[label], in, labels() interleaved; 200 quick / 1570 thorough (n, length) pairs for int_as_bitstring / bit_length; multi-namespace wave: 240 quick / 5000 thorough histories (<=22 / <=50 ops) over up to 5 namespaces sharing Taxon objects, built by TaxonNamespace() / TaxonNamespace([taxa and labels]) / TaxonNamespace(other) with and without the is_mutable / is_case_sensitive keywords, copy.copy, __copy__, copy.deepcopy, with the base operations addressed to any of them (operands steered to members, to taxa of the OTHER namespaces and to present labels), taxon_namespace_scoped_copy, == and <; every namespace is observed after every step (members, indices, counter via all_taxa_bitmask, flags; in half of the cases also taxon_bitmask of every member)")
+                      rule="random op histories (<=25 quick / <=60 thorough ops) drawn by a state-aware generator (operands mostly members / present labels incl. case variants / subsets of live bits; taxa_bitmask followed by bitmask_taxa_list of its result) over label pools with duplicates and case variants, both case settings, several API spellings per op (append/add_taxa, del ns[i]/remove, copy.copy, split_as_newick_string, get_taxa_bitmask); the batch entry points add_taxa(list / tuple / generator of Taxon objects in which the SAME not-yet-member object, and members, occur repeatedly), new_taxa / has_taxa_labels / get_taxa with the same label repeated inside one batch, TaxonNamespace([...]) with repeated objects and labels; after every operation the oracle checks that the members are pairwise distinct objects, each with one accession index inside all_taxa_bitmask, and that all_taxa_bitmask has no bit that never had an owner; thorough adds every history of length <=3 over a 25-op alphabet and every history of length 4 over an 11-op alphabet; a case is non-trivial when it has >=3 executed ops and reaches a namespace with >=2 members; distinct by full case content; second wave: 300 quick / 4000 thorough such histories with bitmask_as_bitstring, split_as_string, label_taxon_map, taxa_bipartition(taxa=/labels=), taxa_bitmask(labels=), get_taxa_bitmask, ns[i], ns[a:b], ns[label], in, labels() interleaved; 200 quick / 1570 thorough (n, length) pairs for int_as_bitstring / bit_length; multi-namespace wave: 240 quick / 5000 thorough histories (<=22 / <=50 ops) over up to 5 namespaces sharing Taxon objects, built by TaxonNamespace() / TaxonNamespace([taxa and labels]) / TaxonNamespace(other) with and without the is_mutable / is_case_sensitive keywords, copy.copy, __copy__, copy.deepcopy, with the base operations addressed to any of them (operands steered to members, to taxa of the OTHER namespaces and to present labels), taxon_namespace_scoped_copy, == and <; every namespace is observed after every step (members, indices, counter via all_taxa_bitmask, flags; in half of the cases also taxon_bitmask of every member); failing batches: 200 quick / 3000 thorough histories in which about one operation in eight is add_taxa / new_taxa over an iterable that fails part-way (generator raising ValueError / KeyError, iterator raising in __next__, list with an unhashable element followed by further taxa), the exception caught and the history continued (mostly with further additions), non-trivial when a batch failed after adding a member and a later operation added another; label pools include the empty string; 400 quick / 6000 thorough direct lookups with the labels 0 and \"\" against the naive statement")
